@@ -21,7 +21,7 @@ Proof. reflexivity. Qed.
 
 (* State.SaveGlobals forwards to the environment, which writes with one Fprintf (= one Write) per binding *)
 Lemma saveglobals_forwards :
-  state_saveglobals_body = ["return s.env.SaveGlobals(w, s.MaxValueLen)"%string].
+  state_saveglobals_body = ["result0 = s.env.SaveGlobals(ARG0, s.MaxValueLen)"%string].
 Proof. reflexivity. Qed.
 
 Lemma saveglobals_one_write_per_binding :
